@@ -565,9 +565,9 @@ Definition run_wf (st : wf) (kw : list (string * Z)) : wf * res :=
    parent forgets its remembered inputs; then the child fetches and runs.  During the parent's
    inner run its panels are built from the temporary labels, so its cache test compares THAT
    value dict with the remembered one: on a hit nothing upstream runs.  child() first lets the
-   workflow fetch its own (exposed) inputs.  Modelled where the driver performs it: acyclic data,
-   both panels readable, and for child() no connected channel exposed among the inputs (there the
-   workflow's own data tree reaches into its children and topology raises ValueError). *)
+   workflow fetch its own (exposed) inputs -- a connected channel exposed by the map takes the value
+   of its newest connection holding data.  Modelled where the driver performs it: acyclic data,
+   both panels readable. *)
 Definition fetch_stored (st : wf) (iid : nat) : Z :=
   match find (fun o => match val st o with Some _ => true | None => false end) (map snd (filter (fun p => Nat.eqb (fst p) iid) (w_conns st))) with
   | Some o => stored st o
@@ -592,7 +592,7 @@ Definition pull (st : wf) (label : string) (with_parent : bool) : wf * res :=
   | Some c =>
       match build_io st DIn, build_io st DOut with
       | Some pin, Some _ =>
-          if cyclic st || (with_parent && exposes_connected st pin) then (st, RExc Skip)
+          if cyclic st then (st, RExc Skip)
           else
             let st0 := if with_parent then fetch_ids st (map snd pin) else st in
             let ups := filter (fun x => negb (String.eqb label (c_label x)) && in_tree st0 label x)
